@@ -31,6 +31,7 @@ CONSTANTS Scenarios,          \* set of scenario names explored in this run
           SpProto,            \* "atomic" | "inplace"  state point file (in place only after disable_multithreading())
           CacheChunks,        \* number of write chunks of the gzip stream
           WithReader,         \* BOOLEAN: a concurrent reader process on the write target
+          ReaderProto,        \* "plain" | "recover": how a signac session reads the target (see the reader actions)
           FixedCloneCleanup   \* BOOLEAN: deviation D1 removed
 
 VARIABLES scn, pc, exc, flag, k, nf, script, res, crashed, last, rpc, rval, rAt
@@ -370,9 +371,22 @@ CrashTorn(p) ==
   /\ last' = [k |-> k + 1, op |-> "crash", a |-> Ins.a, b |-> NoP, out |-> "torn:" \o p]
   /\ UNCHANGED <<scn, exc, flag, k, nf, rpc, rval, rAt>>
 
-(* a reader in another process: open, read everything, parse *)
+(* a reader in another process = a signac SESSION that reads the target through the library
+   (Project._read_cache: gzip.open(cache, "rb"); JSONCollection._load_from_resource: open(doc, "rb")):
+       "plain"    OpenRead(target) [ENOENT: "no file"], ReadAll, Parse.  The reader takes NO step on any other name and
+                  NO mutating step at all - a recorded reader session with any other step is rejected by LifecycleTrace.
+       "recover"  NAMED BROKEN VARIANT on which OldOrNew MUST fail: a reader that finds no target first renames the
+                  writer's temporary file over it ("pick up the work of an interrupted update") - but the temp file also
+                  exists, half written, while a writer is inside the protocol and after a crash inside the write. *)
+RTmp == IF S.rt = <<"sig", "cache">> THEN <<"sig", "cache~">> ELSE NoP
+ReaderRecover ==
+  /\ WithReader /\ S.kind = "write" /\ ReaderProto = "recover" /\ rpc = "open"
+  /\ IF ~Exists(S.rt) /\ RTmp # NoP /\ RenameOutcome(RTmp, S.rt) = "ok"
+     THEN Rename(RTmp, S.rt) ELSE UNCHANGED fsvars
+  /\ rpc' = "open2"
+  /\ UNCHANGED <<scn, pc, exc, flag, k, nf, script, res, crashed, last, rval, rAt>>
 ReaderOpen ==
-  /\ WithReader /\ S.kind = "write" /\ rpc = "open"
+  /\ WithReader /\ S.kind = "write" /\ rpc = (IF ReaderProto = "recover" THEN "open2" ELSE "open")
   /\ IF OpenReadOutcome(S.rt) = "ok"
      THEN OpenRead("r", S.rt) /\ rpc' = "read" /\ rval' = rval
      ELSE UNCHANGED fsvars /\ rpc' = "done" /\ rval' = "ABSENT"
@@ -396,7 +410,7 @@ Next == \/ DoRename \/ DoUnlink \/ DoMkdir \/ DoRmdir \/ DoOpenTrunc \/ DoWrite 
         \/ DoRead \/ DoControl \/ DoReturn
         \/ \E e \in Errnos, p \in {"none", "half"} : Fail(e, p)
         \/ Crash \/ \E p \in PrefixClasses : CrashTorn(p)
-        \/ ReaderOpen \/ ReaderRead
+        \/ ReaderRecover \/ ReaderOpen \/ ReaderRead
 Spec == Init /\ [][Next]_vars
 
 ---------------------------------------------------------------------------
@@ -414,6 +428,8 @@ NeverTornOrEmpty ==
   S.kind = "write" =>
     /\ \A t \in S.targets : ParseAt(t.p) \notin {"TORN", "EMPTY"}
     /\ rval \notin {"TORN", "EMPTY"}
+(* a write that meets no injected failure completes, whatever a concurrent reader does *)
+WriterCompletes == (S.kind = "write" /\ pc = "done" /\ nf = 0) => res = "ok"
 (* a crash leaves at most ONE stray file, and it is the temp name next to a target; a completed write leaves none *)
 Extra == (DOMAIN names \ InitPaths) \ TargetPaths
 LitterOnlyTmp ==
